@@ -610,7 +610,12 @@ class DateTime(Element):
 
             gmt_offset_hours = utils.TZS[tz_name]
 
-        return utils.gmt_offset(gmt_offset_hours, int(minutes or 0))
+        gmt_offset = utils.gmt_offset(gmt_offset_hours, int(minutes or 0))
+        # An offset between -1:00 and 0 has its sign in the text alone:
+        # int("-0") == 0, which gmt_offset() takes for positive.
+        if gmt_offset_hours == 0 and hours and hours.startswith("-"):
+            gmt_offset = -gmt_offset
+        return gmt_offset
 
     def normalize_to_gmt(self, value, gmt_offset):
         # Adjust timezone to GMT/UTC
